@@ -202,10 +202,13 @@ func (s *Stash) clear(start, end int) {
 			end = len(s.forms) - 1
 		}
 		if start <= end {
-			newEnd := len(s.forms) - (end - start) - 1
-			copy(s.forms[:start], s.forms[end:])
+			// The indices count back from the most recent form as they do
+			// for Nth(), forms is ordered oldest first.
+			lo := len(s.forms) - end - 1
+			hi := len(s.forms) - start
+			newEnd := lo + copy(s.forms[lo:], s.forms[hi:])
 			// Make sure references are removed so GC can collect them.
-			for i := end + 1; i < len(s.forms); i++ {
+			for i := newEnd; i < len(s.forms); i++ {
 				s.forms[i] = nil
 			}
 			s.forms = s.forms[:newEnd]
